@@ -26,6 +26,7 @@ type Program struct {
 	FuncByKey map[string]*ssa.Function
 	pkgByPath map[string]*packages.Package
 	pkgByName map[string]*types.Package
+	pkgsByName map[string][]*types.Package
 }
 
 // LoadProgram loads the packages of /repo that carry contracts (plus dependencies),
@@ -53,13 +54,14 @@ func LoadProgram(repo, specDir string, patterns []string) (*Program, error) {
 	prog, _ := ssautil.AllPackages(pkgs, ssa.NaiveForm|ssa.GlobalDebug)
 	prog.Build()
 	p := &Program{Repo: repo, Pkgs: pkgs, SSA: prog, Contracts: NewContractSet(), FuncByKey: map[string]*ssa.Function{},
-		pkgByPath: map[string]*packages.Package{}, pkgByName: map[string]*types.Package{}}
+		pkgByPath: map[string]*packages.Package{}, pkgByName: map[string]*types.Package{}, pkgsByName: map[string][]*types.Package{}}
 	if len(pkgs) > 0 {
 		p.Fset = pkgs[0].Fset
 	}
 	packages.Visit(pkgs, nil, func(pk *packages.Package) {
 		p.pkgByPath[pk.PkgPath] = pk
 		if pk.Types != nil {
+			p.pkgsByName[pk.Name] = append(p.pkgsByName[pk.Name], pk.Types)
 			if _, dup := p.pkgByName[pk.Name]; !dup || strings.HasPrefix(pk.PkgPath, modPath) {
 				p.pkgByName[pk.Name] = pk.Types
 			}
@@ -192,13 +194,15 @@ func (p *Program) lookupType(te TypeExpr, ctx *types.Package) (types.Type, error
 				}
 			}
 		}
-		if pk == nil {
-			pk = p.pkgByName[te.Pkg]
-		}
+		cands := p.pkgsByName[te.Pkg]
 		if pk != nil {
-			if obj := pk.Scope().Lookup(te.Name); obj != nil {
+			cands = append([]*types.Package{pk}, cands...)
+		}
+		for _, c := range cands {
+			if obj := c.Scope().Lookup(te.Name); obj != nil {
 				if tn, ok := obj.(*types.TypeName); ok {
 					base = tn.Type()
+					break
 				}
 			}
 		}
@@ -233,11 +237,14 @@ func (p *Program) lookupObject(pkgName, name string, ctx *types.Package) types.O
 			}
 		}
 	}
-	if pk == nil {
-		pk = p.pkgByName[pkgName]
+	cands := p.pkgsByName[pkgName]
+	if pk != nil {
+		cands = append([]*types.Package{pk}, cands...)
 	}
-	if pk == nil {
-		return nil
+	for _, c := range cands {
+		if o := c.Scope().Lookup(name); o != nil {
+			return o
+		}
 	}
-	return pk.Scope().Lookup(name)
+	return nil
 }
